@@ -91,9 +91,17 @@ def m_negative_source_with_rs(case, st, v=None):
     """F1: the failing row is a Source with vo < 0 and rs > 0 (or, for a system-level clause, the
     system contains one)"""
     comps = st["comps"] if st else []
-    if v and v.get("op"):
+    if v and v.get("op") and any(c["name"] == v["op"] for c in comps) and not v["clause"].startswith("C03.Sweep") \
+            and v["clause"] not in ("C03.NoNaN",):
         return any(c["name"] == v["op"] and _src_neg_rs(c) for c in comps)
     return any(_src_neg_rs(c) for c in comps)
+
+
+def m_unstable_from_initial_guess(case, st, v=None):
+    """F19: solve() raised 'Unstable system' in the very first sweeps (driven by the initial current
+    guesses: Converter iq, LinReg ig, ILoad ii), although a modest steady state exists"""
+    return (case.get("outcome") == "exc" and case.get("exc") == "ValueError"
+            and str(case.get("msg", "")).startswith("Unstable system") and 0 < int(case.get("sweeps", 0)) <= 2)
 
 
 MATCHERS = {k[2:]: v for k, v in globals().items() if k.startswith("m_")}
